@@ -783,6 +783,19 @@ func (g *Gen) badCall() V {
 	return V{T: "KCond", S: "KWh", X: vp(vq(lib.Pick(g.r, []string{"1 = 1 AND name = ?", "name = ? AND code <> '$'"}))), L: []V{g.str()}}
 }
 
+// selectExpr1: Select / Distinct with a one-column expression and '?' or '@name' arguments
+func (g *Gen) selectExpr1() V {
+	switch g.r.Intn(4) {
+	case 0:
+		return V{T: "KSelect", S: "coalesce(@v, name) AS name", L: []V{named("v", g.scalar())}}
+	case 1:
+		return V{T: "KDistinct", S: "coalesce(?, code)", L: []V{g.strOrOther()}}
+	case 2:
+		return V{T: "KSelect", S: "name || ?", L: []V{g.str()}}
+	}
+	return V{T: "KSelect", S: "coalesce(?, name) AS name", L: []V{g.strOrOther()}}
+}
+
 // modelKey: now and then the value given to Model() carries its primary key
 func (g *Gen) modelKey(in *Input) {
 	if g.r.Chance(1, 4) {
@@ -1007,6 +1020,9 @@ func (g *Gen) Input() Input {
 		}
 	case 5, 6:
 		in.Chain = g.queryChain(depth)
+		if g.r.Chance(1, 6) {
+			in.Chain = append(in.Chain, g.selectExpr1())
+		}
 		in.Fin = Fin{K: lib.Pick(g.r, []string{"first", "first", "take", "last"})}
 		if g.r.Chance(1, 3) && !g.scoped {
 			q, a := g.condForm(1)
@@ -1014,12 +1030,18 @@ func (g *Gen) Input() Input {
 		}
 	case 7, 8:
 		in.Chain = g.queryChain(depth)
+		if g.r.Chance(1, 5) {
+			in.Chain = append(in.Chain, g.selectExpr1()) // Count replaces a select expression by count(*): its arguments go with it
+		}
 		in.Fin = Fin{K: "count"}
 	case 9:
 		for _, c := range g.queryChain(depth) {
-			if c.T != "KSelect" && c.T != "KSelectCols" { // Pluck of a multi-column select is a misuse (scan panics)
+			if c.T != "KSelect" && c.T != "KSelectCols" && !(c.T == "KDistinct" && c.S != "") { // Pluck of a multi-column select is a misuse (scan panics)
 				in.Chain = append(in.Chain, c)
 			}
+		}
+		if g.r.Chance(1, 2) { // a ONE-column select expression with arguments installed before Pluck: it stays
+			in.Chain = append([]V{g.selectExpr1()}, in.Chain...)
 		}
 		in.Fin = Fin{K: "pluck", S: lib.Pick(g.r, []string{"name", "Age", "code", "lower(name)"})}
 	case 10, 11:
